@@ -1,6 +1,8 @@
 package main
 
 import (
+	"fmt"
+	"go/token"
 	"strings"
 
 	"golang.org/x/tools/go/ssa"
@@ -413,4 +415,128 @@ func deliverySiteClass(w *World, g *FG, n int) string {
 		return "after-pill"
 	}
 	return "batch-element"
+}
+
+// valueSetter: a value-receiver "With…" method stores its argument into field of the copy it returns.
+func valueSetter(w *World, fn *ssa.Function, field string) bool {
+	if fn == nil || fn.Blocks == nil || len(fn.Params) != 2 {
+		return false
+	}
+	g := w.FG(fn)
+	var copyA *ssa.Alloc
+	for _, in := range g.ins {
+		if st, ok := in.(*ssa.Store); ok && st.Val == ssa.Value(fn.Params[0]) {
+			copyA, _ = st.Addr.(*ssa.Alloc)
+		}
+	}
+	if copyA == nil {
+		return false
+	}
+	set := make([]bool, len(g.ins))
+	for i, in := range g.ins {
+		if st, ok := in.(*ssa.Store); ok {
+			if fa, ok := st.Addr.(*ssa.FieldAddr); ok && fa.X == ssa.Value(copyA) {
+				if name, _ := fieldName(fa); name == field && (st.Val == ssa.Value(fn.Params[1]) || stripConv(st.Val) == ssa.Value(fn.Params[1])) {
+					set[i] = true
+				}
+			}
+		}
+	}
+	if !anyOf(set) {
+		return false
+	}
+	for _, x := range g.returns {
+		rv := g.ins[x].(*ssa.Return).Results[0]
+		u, ok := rv.(*ssa.UnOp)
+		if !ok || u.X != ssa.Value(copyA) || !g.Before(set, g.idx[u]) {
+			return false
+		}
+	}
+	return true
+}
+
+// checkDrainStart: the graceful drain starts at the pill (or at the number of elements already delivered),
+// never earlier: otherwise a Poison re-delivers messages that were already handled.
+func checkDrainStart(w *World, r *Report, rule string) {
+	pr := w.findProcRoles()
+	if pr.fail(r, rule) {
+		return
+	}
+	g := w.FG(pr.invoke)
+	key := fname(pr.invoke) + ":drain-starts-at-pill"
+	what := "the drained tail msgs[k:] starts at the pill's position (k = loop index, index+1, or a counter advanced once per delivered element)"
+	var sl *ssa.Slice
+	n := 0
+	for _, in := range g.ins {
+		if s, ok := in.(*ssa.Slice); ok && w.pathOf(s.X) == "P1" && s.High == nil {
+			sl = s
+			n++
+		}
+	}
+	if n != 1 || sl.Low == nil {
+		r.Unknown(rule, key, what, w.fnPos(pr.invoke), fmt.Sprintf("%d tail slices of the batch parameter found (unrecognised drain idiom)", n))
+		return
+	}
+	// the loop index of the batch loop
+	var idx ssa.Value
+	for _, ci := range w.callsIn(pr.invoke, EvCall("deliver", pr.deliverFn)) {
+		v := ci.Common().Args[1]
+		if u, ok := v.(*ssa.UnOp); ok {
+			if al, ok := u.X.(*ssa.Alloc); ok {
+				if s := singleStore(al); s != nil {
+					v = s
+				}
+			}
+		}
+		if u, ok := v.(*ssa.UnOp); ok {
+			if ia, ok := u.X.(*ssa.IndexAddr); ok && w.pathOf(ia.X) == "P1" {
+				idx = ia.Index
+			}
+		}
+	}
+	low := sl.Low
+	ok := false
+	detail := "the drain starts at " + w.pathOf(low)
+	switch {
+	case idx != nil && low == idx:
+		ok = true
+	case idx != nil:
+		if b, isB := low.(*ssa.BinOp); isB && b.Op == token.ADD && b.X == idx && constStr(b.Y) == "1" {
+			ok = true
+		}
+	}
+	if !ok {
+		// counter form: phi(0, phi+1) whose increment lies on every path from the element delivery back to the loop
+		if ph, isPhi := low.(*ssa.Phi); isPhi && len(ph.Edges) == 2 {
+			var inc ssa.Instruction
+			zero := false
+			for _, e := range ph.Edges {
+				if constStr(e) == "0" {
+					zero = true
+				}
+				if b, isB := e.(*ssa.BinOp); isB && b.Op == token.ADD && b.X == ssa.Value(ph) && constStr(b.Y) == "1" {
+					inc = b
+				}
+			}
+			if zero && inc != nil {
+				ok = true
+				incN := setOf(len(g.ins), g.idx[inc])
+				for _, ci := range w.callsIn(pr.invoke, EvCall("deliver", pr.deliverFn)) {
+					dn := g.idx[ci.(ssa.Instruction)]
+					if deliverySiteClass(w, g, dn) != "batch-element" {
+						continue
+					}
+					// from the delivery, the next arrival at the phi passes the increment
+					rr := g.reach(g.succ[dn], incN, nil)
+					if rr[g.idx[ph]] {
+						ok = false
+						detail = "the counter that marks the start of the drain is not advanced after every delivered element: a graceful Poison re-delivers messages that were already handled"
+					}
+				}
+			} else {
+				detail = "the drain's start is a value that is not advanced by one per delivered element: " + w.pathOf(low)
+			}
+		}
+	}
+	r.Check(ok, rule, key, what, w.pos(sl.Pos()), detail)
 }
